@@ -940,8 +940,61 @@ fn magnitudes(ctx: &Ctx, prop: &'static str) -> Tally {
     })
 }
 
+/// Decode-time spans inside ONE fragment: every sequence of 2..=4 decode steps over a boundary set
+/// of the 32-bit duration field (each step fits it, their sums need not), from three bases. Sample
+/// durations are differences of neighbours, whatever the distance to the fragment's first sample.
+fn spans(ctx: &Ctx, prop: &'static str) -> Tally {
+    const S: [u64; 6] = [1, 3000, (1 << 31) - 1, 1 << 31, 3_000_000_000, (1 << 32) - 1];
+    let cfgs: Vec<FCfg> = configs(false).into_iter().filter(|c| c.start_dts == 0).collect();
+    let mut seqs: Vec<Vec<u64>> = vec![];
+    let mut frontier: Vec<Vec<u64>> = vec![vec![]];
+    for _ in 0..4 {
+        frontier = frontier.iter().flat_map(|q| S.iter().map(move |&x| { let mut r = q.clone(); r.push(x); r })).collect();
+        seqs.extend(frontier.iter().filter(|q| q.len() >= 2).cloned());
+    }
+    let mut items = vec![];
+    for c in &cfgs {
+        for base in [0u64, 90_000, 1 << 40] {
+            items.push((c.clone(), base));
+        }
+    }
+    let seqs = &seqs;
+    par_items(&items, ctx.seed, |idx, (cfg, base), t| {
+        for (k, q) in seqs.iter().enumerate() {
+            let mut h = vec![];
+            let mut d = *base;
+            for i in 0..=q.len() {
+                if i > 0 {
+                    d += q[i - 1];
+                }
+                // the second sample is presented one tick late: offsets must not follow the span either
+                let p = if i == 1 { d + 1 } else { d };
+                h.push(FOp::Write { pts: p, dts: d, data: oracle::model::hex(&body(i as u32 + 1, 3 + i)), sync: i == 0 });
+            }
+            h.push(FOp::Flush);
+            t.evaluations += 1;
+            t.states += 1;
+            t.transitions += h.len() as u64;
+            match guarded(|| replay_history(cfg, &h)) {
+                Ok(Ok((_, _, issues))) => {
+                    for (p, sig, detail) in issues {
+                        if p == prop {
+                            t.violation(&format!("{p}/span/{sig}"), (6_900_000 + idx as u64, k as u64), || format!("{:?} base {base} steps {q:?}: {detail}", cfg.codec), || json!({"engine": "E5", "cfg": cfg, "history": h, "brief": brief(&h)}));
+                        }
+                    }
+                }
+                Ok(Err(_)) => {}
+                Err(p) => t.violation(&format!("{prop}/span/panic"), (6_900_000 + idx as u64, k as u64), || format!("base {base} steps {q:?}: {p}"), || json!({"engine": "E5", "cfg": cfg, "history": h})),
+            }
+        }
+    })
+}
+
 pub fn check(ctx: &Ctx, prop: &'static str) -> i32 {
     let (mut tally, mut meta) = collect(ctx, prop);
+    let t6 = spans(ctx, prop);
+    tally.count("span_histories", t6.evaluations);
+    tally.merge(t6);
     if prop == "C10" {
         let t5 = magnitudes(ctx, prop);
         tally.count("magnitude_histories", t5.evaluations);
@@ -956,7 +1009,7 @@ pub fn check(ctx: &Ctx, prop: &'static str) -> i32 {
     let t2 = scaling(ctx, prop);
     tally.count("scaling_histories", t2.evaluations);
     tally.merge(t2);
-    meta.rule = format!("{} Scaling family: fragments of every sample count 1..={} x 3 decode-step patterns x 2 flush cadences x 4 codecs (one 66 KB sample in some) plus fragments of 66 000 samples, replayed with the same model. Look-alike family: decode time (5 byte alignments), decode delta, composition offset or payload spelling each of 9 box codes x 4 codecs. Decode-time magnitudes (C10): every ordered pair over 11 boundary values of the u64 range with a flush in between. Payload shapes: 9 payloads that look like Annex B / ADTS / padding (a length prefix spelling a start code among them) and a length-prefixed unit with every header byte value x every configuration.", meta.rule, if ctx.thorough { 200 } else { 80 });
+    meta.rule = format!("{} Scaling family: fragments of every sample count 1..={} x 3 decode-step patterns x 2 flush cadences x 4 codecs (one 66 KB sample in some) plus fragments of 66 000 samples, replayed with the same model. Look-alike family: decode time (5 byte alignments), decode delta, composition offset or payload spelling each of 9 box codes x 4 codecs. Decode-time spans: every sequence of 2..4 decode steps over {{1, 3000, 2^31-1, 2^31, 3e9, 2^32-1}} inside one fragment x 3 bases x every configuration. Decode-time magnitudes (C10): every ordered pair over 11 boundary values of the u64 range with a flush in between. Payload shapes: 9 payloads that look like Annex B / ADTS / padding (a length prefix spelling a start code among them) and a length-prefixed unit with every header byte value x every configuration.", meta.rule, if ctx.thorough { 200 } else { 80 });
     finish(ctx, &tally, meta)
 }
 
